@@ -2,6 +2,7 @@
 import TornadoModel.C43.Lemmas
 import TornadoModel.C43.Inv2
 import TornadoModel.C43.Civil
+import TornadoModel.C43.Url
 import TornadoModel.Base.Wire
 namespace TornadoModel.C43
 open TornadoModel.C06 (Str isToken)
@@ -288,12 +289,19 @@ example : parseHttpDate (formatTimestamp 253402300800) ≠ some 253402300800 := 
 
 /-- `url_concat` keeps the part before the query and the fragment, keeps the existing pairs and appends the arguments
     in order (text without lone surrogates) -/
-def url_concat_preserves_goal : Prop :=
-  ∀ (url : Str) (args : List (Str × Str)), url.all Wire.isScalar = true →
-    (∀ p ∈ args, p.1.all Wire.isScalar = true ∧ p.2.all Wire.isScalar = true) →
+theorem url_concat_preserves (url : Str) (args : List (Str × Str)) (hurl : url.all Wire.isScalar = true)
+    (hargs : ∀ p ∈ args, p.1.all Wire.isScalar = true ∧ p.2.all Wire.isScalar = true) :
     (urlSplit (urlConcat url (some args))).1 = (urlSplit url).1 ∧
     (urlSplit (urlConcat url (some args))).2.2 = (urlSplit url).2.2 ∧
-    parseQsl (urlSplit (urlConcat url (some args))).2.1 = parseQsl (urlSplit url).2.1 ++ args
+    parseQsl (urlSplit (urlConcat url (some args))).2.1 = parseQsl (urlSplit url).2.1 ++ args :=
+  urlConcat_preserves url args hurl hargs
+
+example : (ofAscii "http://h/p?a=1&b=%C3%A9#frag").all Wire.isScalar = true ∧
+    (∀ p ∈ [(ofAscii "c d", [233, 8364, 128512]), (ofAscii "a", ofAscii "&=#?+%")],
+      p.1.all Wire.isScalar = true ∧ p.2.all Wire.isScalar = true) := by decide
+
+example : urlConcat (ofAscii "http://h/p?a=1#frag") (some [(ofAscii "c d", [233]), (ofAscii "a", ofAscii "&=#?+%")]) =
+    ofAscii "http://h/p?a=1&c+d=%C3%A9&a=%26%3D%23%3F%2B%25#frag" := by decide
 
 example : parseHttpDate (formatTimestamp 1359312200) = some 1359312200 := by decide
 example : formatTimestamp 1359312200 = ofAscii "Sun, 27 Jan 2013 18:43:20 GMT" := by decide
